@@ -302,8 +302,12 @@ def write_evidence(pid, tier, results, functions, loops, notes, canaries, solver
         'seed': int(os.environ.get('VERIF_SEED', '0') or 0),
         'level': info.get('level', 'proof'),
         'coverage': {
-            'obligations': n_obl,
+            # obligations this run claims: all generated ones except those refuted exactly as a recorded known finding
+            # (these are counted separately below and never as discharged)
+            'obligations': n_obl - len(known_hit),
             'discharged': n_ok,
+            'obligations_generated': n_obl,
+            'refuted_as_recorded_known_findings': len(known_hit),
             'by_backend': by_backend,
             'solver_seconds': round(solver_s, 2),
             'checker_cmd': f'./check {pid} --tier {tier}',
